@@ -96,6 +96,14 @@ func (c *Coproc) died() error {
 
 func (c *Coproc) Dead() bool { return c.dead }
 
+// Kill terminates the co-process without waiting for the protocol.
+func (c *Coproc) Kill() {
+	if c.cmd.Process != nil {
+		c.cmd.Process.Kill()
+	}
+	c.dead = true
+}
+
 func (c *Coproc) Close() {
 	c.mu.Lock()
 	defer c.mu.Unlock()
